@@ -54,7 +54,9 @@ def classify(d, call):
 def run_program(ctx, index, backend, calls=None, weights=None, profile=None, prop_classify=None):
   from vv import rpcprog
   rng = ctx.rng(index, backend)
-  runner = rpcprog.ProgramRunner(backend)
+  # half of the programs keep the service's default early-stopping recycle period
+  # (a recent decision is answered from the stored operation), half recompute always
+  runner = rpcprog.ProgramRunner(backend, early_stop_recycle_s=[0.0, 60.0][index % 2])
   n = rng.choice([8, 12, 20, 30, 40]) if calls is None else len(calls)
   executed = []
   for k in range(n):
